@@ -357,8 +357,30 @@ def install():
         finally:
             r.depth -= 1
         if len(r.searches) < r.cap:
+            # does the implementation's own judgement relate the answer to the query (read
+            # through projections and variable bounds, as the search reads it)?  Asked of the
+            # live objects at the moment of the call; kept apart from the reference verdict.
+            impl_related = None
+            if res is not None:
+                r.depth += 1
+                try:
+                    e = etype
+                    for _ in range(8):
+                        if e is not None and e.is_wildcard():
+                            e = e.get_bound_rec()
+                        elif isinstance(e, tp.TypeParameter):
+                            e = e.bound
+                        else:
+                            break
+                    if e is not None and not isinstance(e, tp.TypeParameter):
+                        impl_related = bool(res.is_subtype(e) or e.is_subtype(res))
+                except Exception:   # noqa
+                    impl_related = None
+                finally:
+                    r.depth -= 1
             r.searches.append(('irrelevant', tsnap(etype), [tsnap(res)] if res is not None
-                               else [], False, False, False, prov._creator(2, 2)))
+                               else [], False, False, False, prov._creator(2, 2),
+                               impl_related))
         return res
     tu.find_subtypes, tu.find_supertypes, tu.find_irrelevant_type = \
         find_subtypes, find_supertypes, find_irrelevant_type
